@@ -210,6 +210,9 @@ def interpret(data, expect):
 
 SPECIAL_NAMES = ["radio+ble", "my app", "top@v2", "sec dom", "sys:ctrl", "r\u00e4dio", "a&b", "x=y", "p%20q", "semi;colon",
                  "q?r", "tilde~", "ex!cl", "(paren)", "\u4e2d\u6587"]
+HOSTILE_NAMES = ["acme #1", "007", "yes", "null", "a: b", "1e3", "0x1F", "~", "x #y", "*star", "&anchor", "!tag", "[x]", "{y}",
+                 "it's", 'quo"te', " lead", "trail ", "@at", "`tick", "%pct", "- dash", "? q", "1_000", "12:30", "2001-01-01",
+                 ".inf", "<<", "back\\slash", "r\u00e4dio \u00b5", "a,b", "|", ">"]
 IDENT_NAMES = ["ipc_radio-1.2", "my_app.v2", "top-rc1", "A", "img0", "hci_ipc", "cpuapp.signed"]
 
 
@@ -239,10 +242,25 @@ def run_config(rec, cfg, k, idx):
         children = {}
         if cfg["template"] == "root":
             conf = dict(CUSTOM) if cfg["custom"] else {}
-            data["sysbuild"] = {"name": "sysbuild", "config": conf}
             names = {"radio": ("nordicsemi.com", "nRF54H20_sample_rad"), "application": ("nordicsemi.com", "nRF54H20_sample_app")}
+            root_names = ("acme.org", "acme_root")
             if cfg["custom"]:
                 names = {"radio": ("radio.example", "acme_rad"), "application": ("acme.org", "acme_app")}
+                if r.random() < 0.5:
+                    # configured names are free text ("every MPI vendor/class configuration"): text that a YAML reader
+                    # would take for a comment, a number, a boolean, null, an alias, a flow collection or a mapping
+                    # when it is pasted into the description without quoting
+                    pick = lambda: r.choice(HOSTILE_NAMES)     # noqa: E731
+                    names = {"radio": (pick(), pick()), "application": (pick(), pick())}
+                    root_names = (pick(), pick())
+                    conf = {"SB_CONFIG_SUIT_MPI_ROOT_VENDOR_NAME": root_names[0],
+                            "SB_CONFIG_SUIT_MPI_ROOT_CLASS_NAME": root_names[1],
+                            "SB_CONFIG_SUIT_MPI_APP_LOCAL_1_VENDOR_NAME": names["application"][0],
+                            "SB_CONFIG_SUIT_MPI_APP_LOCAL_1_CLASS_NAME": names["application"][1],
+                            "SB_CONFIG_SUIT_MPI_RAD_LOCAL_1_VENDOR_NAME": names["radio"][0],
+                            "SB_CONFIG_SUIT_MPI_RAD_LOCAL_1_CLASS_NAME": names["radio"][1]}
+                    rec.count("mpi-names:yaml-significant-text")
+            data["sysbuild"] = {"name": "sysbuild", "config": conf}
             ids = []
             style, img_names = image_names(r, IMAGES)
             rec.count("image-names:" + style)
@@ -255,7 +273,7 @@ def run_config(rec, cfg, k, idx):
                         return
                     children["#" + img_names[img]] = E
                     ids.append(cid("nordicsemi.com", "nRF54H20_nordic_top") if img == "top" else cid(*names[img]))
-            own = cid("acme.org", "acme_root") if cfg["custom"] else cid("nordicsemi.com", "nRF54H20_sample_root")
+            own = cid(*root_names) if cfg["custom"] else cid("nordicsemi.com", "nRF54H20_sample_root")
             template = ROOT_T
             vkeys = ("APP_ROOT_SEQ_NUM", "APP_ROOT_VERSION")
         else:
